@@ -2,6 +2,7 @@
 #ifndef VERIF_SHIM_ACECOMMON_H
 #define VERIF_SHIM_ACECOMMON_H
 #include <stdint.h>
+#include <string.h>
 #include "Print.h"
 namespace ace_common {
 void printPad2To(Print& printer, uint8_t value, char padChar = ' ');
